@@ -616,7 +616,7 @@ def _geti2(H, E, I, h, pade):
     j = 1.0
     tol = 1e-15
     maxloops = 200
-    while abs(term).max() > tol * abs(E).max() and j < maxloops:
+    while abs(term).max() > tol * abs(I2).max() and j < maxloops:
         j += 1.0
         I2 += term / (j + 1)
         term = term.dot(H.A) / j
